@@ -25,7 +25,7 @@ CHECKS = {
   note="Mutations beyond two bytes are not explored; the concurrent first-call of the lazy decode is covered by C12's race pass. Trusted: ref/e37, ref/e5, synctest, sim."),
  "C05": dict(engine="E3-sched + explicit-state graph search", cat="model_checking", tech="explicit-state BFS over the real supervisor's step/commit functions (state = replayed action history, canonical-key merging) + " + E3,
   text="Layer 1: breadth-first closure (to the stated depth) of all transport-producible action sequences on the REAL supervisor (commits, async injects, requestClose, step, commits landing between step's load and store), oracle after every action = reference in which a state change takes effect exactly when its cause does. Layer 3: every schedule with <= B departures of system scenarios (peer connect/select/deselect/drop vs Close/Open vs T7 clock) on the real instrumented hsmsss connection, invariants evaluated at every scheduling point; one scenario on a real passive secs1 connection (connect vs Close). After the bounded DFS every scenario is also run once per thread with that thread starved (scheduled only when nothing else can run).",
-  note="Bounded: graph depth and departure bound are reported per run; schedules beyond the bound and scheduling points the instrumenter does not know are not explored. The genuine defects this check found (F5, F6, F7, F8) are repaired in /repo (fix: 68e8d01, 28b19f3, a7c29a2, 3fe639a); one residual form of F7 (a select and a deselect both landing inside one step's load-to-CAS window) is listed in known_findings.json and reported as KNOWN-FINDING."),
+  note="Bounded: graph depth and departure bound are reported per run; schedules beyond the bound and scheduling points the instrumenter does not know are not explored. The genuine defects this check found (F5, F6, F7, F8) are repaired in /repo (fix: 68e8d01, 28b19f3, a7c29a2, 3fe639a, e7f57d6); no known finding is left for this property."),
  "C08": dict(engine="E2-bubble + E3-sched", cat="model_checking", tech=E2 + "; schedule part (library-initiated control transactions ending on T6): " + E3,
   text="Tree search: every history of peer frames of length <= D over a 16-symbol alphabet (all control requests/responses, orphan responses, data, malformed frames, second connect / reconnect) replayed on a fresh real hsmsss connection per history; after EVERY step the exact FIFO of frames the library wrote, State(), handler deliveries and connection liveness are compared with a reference E37 responder; plus depth-1 over every malformed (SType 0..255 x PType x body) frame; passive/active(after and during select) x equip/host x session-id validation.",
   note="Depth-bounded (quick 3-4, thorough 4-5); events are separated by quiescence (exact ties are E3's job). Trusted: synctest, sim, the reference responder."),
